@@ -85,12 +85,22 @@ RULE = ('pickle and HDF5 k-tables (1-20 g-points, weights >= 0 summing to 1, 1-3
         'another molecule, tables installed, k-mode run, then the interpolation mode changed or taken back through '
         'OpacityCache().set_interpolation and the pair of runs repeated in the mode in force) loaded by the '
         'real PickleKTable/HDF5KTable/KTableCache; family in {transmission (absorption only or + CIA), emission (absorption, '
-        'optional CIA)}; table kind in {degenerate (identical across g), generic}; opacity regime in {zero, thin, mid, '
+        'optional CIA)}; twin-grid stream: all molecules on the same bin centres (constant-resolution pieces, R = 60..3000), one '
+        'side held as float64(float32(.)), either side first, end points exactly shared or rounded too; contribution-list '
+        'stream: 8 lists over {absorption, CIA, Rayleigh, flat Mie} in both families, 5 of them without the molecular '
+        'absorption, model() and every entry of model_contrib() run in both opacity modes; table kind in {degenerate (identical across g), generic}; opacity regime in {zero, thin, mid, '
         'saturated, mixed}; 1-30 layers, 1-8 wavenumbers, ngauss 1-6; distinct non-trivial = distinct (family, kind, '
         'ng, nlayers, regime, cia) with a column neither transparent nor saturated')
 ASSUMPTIONS = ['all k-tables of one run share the quadrature weights (the code takes them from the first active gas)',
                'weights >= 0 and sum to 1 (to rounding); coefficients >= 0',
-               'the molecular absorption contribution is present (the emission k-path without it is not modelled)',
+               'main / reuse / session streams: the molecular absorption contribution is present; the emission k-path '
+               'without it (a list of non-molecular contributions only, the non-molecular entries of model_contrib()) is '
+               'KTau.emissionKNoMol, exercised by the contribution-list stream',
+               'contribution-list stream: Rayleigh and flat-Mie enter through the sigma_xsec their own prepare() leaves '
+               '(their wavelength laws are not modelled); a contribution evaluated on its own by model_contrib() is the '
+               'model with the one-element contribution list',
+               'twin-grid stream: a bin centre that went through a single-precision file is float64(float32(x)); both opacity '
+               'modes must resample such a table onto the model grid in the same way',
                'linear interpolation mode: the table of weight-averaged coefficients interpolates to the weight-averaged '
                'opacity (used by the Jensen predicate)',
                'rounding: 1e-8 relative (numba fastmath)',
@@ -110,17 +120,31 @@ def _invalid_params(ctx, e):
         return True
     return False
 
-def gen_case(rng, k, thorough=False):
+def gen_case(rng, k, thorough=False, twin=None):
+    """`twin` ('later' | 'first'; quota of the twin-grid stream): every molecule is tabulated at the SAME bin centres, but
+    the tables of the later molecules / of the first molecule hold them as they come back from a single-precision file
+    (float32 and widened), the others in double precision: equal to ~6e-8 relative, not bitwise, so that a molecule is
+    evaluated on a grid that is its own up to single-precision rounding.  The grid is a piece of a constant-resolution grid
+    (R = 60 .. 3000); in half of the cases its two end points are numbers both precisions hold exactly"""
     family = 'transmission' if k % 2 == 0 else 'emission'
     tkind = 'degenerate' if (k // 2) % 2 == 0 else 'generic'
     regime = ['mid', 'mixed', 'thin', 'saturated', 'zero', 'mid', 'mixed'][(k // 4) % 7]
+    if twin:
+        regime = 'mid'
     nl = int(rng.integers(1, 31 if thorough else 16))
     nwn = int(rng.integers(1, 9 if thorough else 6))
-    multigrid = bool(rng.random() < 0.35)
+    multigrid = bool(rng.random() < 0.35) and not twin
     ends = []
-    if multigrid:
-        nwn = max(nwn, 3)
+    if multigrid or twin:
+        nwn = max(nwn, 4 if twin else 3)
     wn = np.sort(rng.choice(np.arange(200.0, 12000.0, 13.0), size=nwn, replace=False))
+    twin_ends = None
+    if twin:
+        res = float([60.0, 300.0, 3000.0][int(rng.integers(0, 3))])
+        wn = float(rng.uniform(400.0, 9000.0)) * np.exp(np.arange(nwn) / res)
+        twin_ends = 'exact' if (k // 8) % 2 == 0 else 'rounded'
+        if twin_ends == 'exact':
+            wn[0], wn[-1] = np.floor(wn[0] * 2) / 2, np.ceil(wn[-1] * 2) / 2
     ng = int(rng.integers(1, 21)) if rng.random() < 0.6 else int(rng.integers(1, 5))
     w = rng.random(ng) + 0.02
     if ng > 2 and rng.random() < 0.2:
@@ -137,7 +161,7 @@ def gen_case(rng, k, thorough=False):
         elif tclass == 'inverted':
             a = np.sort(a)
         T = [float(x) for x in a]
-    ngas = int(rng.integers(2 if multigrid else 1, 4))
+    ngas = int(rng.integers(2 if (multigrid or twin) else 1, 4))
     names = [str(x) for x in rng.choice(MOLS, size=ngas, replace=False)]
     gases, tables = {}, {}
     for nm in names:
@@ -150,13 +174,19 @@ def gen_case(rng, k, thorough=False):
         else:
             e = {'thin': rng.uniform(-34, -30, size=nwn), 'mid': rng.uniform(-25.5, -21, size=nwn),
                  'saturated': rng.uniform(-18, -12, size=nwn), 'mixed': rng.uniform(-30, -14, size=nwn)}[regime]
+            if twin:
+                # neighbouring bins within ~4 decades of each other: a point resampled 1e-6 of a bin away from a node is
+                # y1 + 1e-6 (y0 - y1), whose rounding noise 1e-16 y0 / y1 must stay far below the comparisons' 1e-8 / tau
+                e = rng.uniform(-24.5, -22.0, size=nwn)
             base = 10 ** (e[None, None, :] + rng.uniform(-0.5, 0.5, size=(nP, nT, nwn)))
         if tkind == 'degenerate':
             kc = np.repeat(base[..., None], ng, axis=-1)
         else:
-            spread = np.sort(rng.uniform(-2.5, 2.5, size=(nP, nT, nwn, ng)), axis=-1)
+            sp = 0.5 if twin else 2.5
+            spread = np.sort(rng.uniform(-sp, sp, size=(nP, nT, nwn, ng)), axis=-1)
             kc = base[..., None] * 10 ** spread
-        gases[nm] = float(10 ** rng.uniform(-7, -2))
+        # (twin-grid quota: comparable abundances, so that every molecule's table shows in the spectrum)
+        gases[nm] = float(10 ** (rng.uniform(-4, -3) if twin else rng.uniform(-7, -2)))
         tables[nm] = dict(tg=tg, pg=pg, kcoeff=kc)
     # quota: further molecules tabulated on their own (shorter, offset) wavenumber grid, so that the model grid is the
     # first molecule's and the others are resampled onto it; the table grid ends inside the model grid, or straddles
@@ -185,6 +215,12 @@ def gen_case(rng, k, thorough=False):
             t['kcoeff'] = kc[:, :, idx, :] * 10 ** rng.uniform(-0.3, 0.3, size=(1, 1, len(g2), 1))
             t['wn'] = g2
             ends.append(mode)
+    if twin:
+        wn32 = wn.astype(np.float32).astype(float)
+        for nm in (names[1:] if twin == 'later' else names[:1]):
+            tables[nm]['wn'] = wn32
+        for nm in (names[:1] if twin == 'later' else names[1:]):
+            tables[nm]['wn'] = wn.copy()
     cia = None
     if rng.random() < 0.35:
         pair = 'H2-He' if rng.random() < 0.5 else 'H2-H2'
@@ -203,8 +239,11 @@ def gen_case(rng, k, thorough=False):
     # quota: the container the k-tables are written in and discovered from (blocks of 28 cases cover every family x kind x
     # regime combination in either container)
     kfmt = 'hdf5' if (k // 28) % 2 == 1 else 'pickle'
-    return dict(family=family, tkind=tkind, regime=regime, tclass=tclass, spec=spec, wn=wn, tables=tables,
-                weights=w, cia=cia, multigrid=bool(ends), grid_ends=ends, kfmt=kfmt)
+    out = dict(family=family, tkind=tkind, regime=regime, tclass=tclass, spec=spec, wn=wn, tables=tables,
+               weights=w, cia=cia, multigrid=bool(ends), grid_ends=ends, kfmt=kfmt)
+    if twin:
+        out.update(twin=twin, twin_ends=twin_ends)
+    return out
 
 
 def xsec_tables(c, how):
@@ -301,7 +340,9 @@ def judge(ctx, c, case, small, ok, ox, degenerate, kp=''):
     ctx.bucket('cia:' + str(bool(c.get('cia'))) + (':before-absorption' if spec.get('cia_first') else ''))
     if spec.get('deactive'):
         ctx.bucket('deactive_molecules:set')
-    ctx.bucket('grids:' + ('per-molecule' if c.get('multigrid') else 'shared'))
+    ctx.bucket('grids:' + ('per-molecule' if c.get('multigrid') else
+                           'twin(single-precision copy of the same bin centres):%s-molecule:ends-%s'
+                           % (c['twin'], c.get('twin_ends')) if c.get('twin') else 'shared'))
     ctx.bucket('ktable-container:' + str(c.get('kfmt', 'pickle')))
     ctx.bucket('interpolation:' + str(c.get('interp') or 'linear'))
     for e_ in c.get('grid_ends') or []:
@@ -542,6 +583,194 @@ def mode_switch_case(ctx, c, scratch):
                           % (e,), case)
 
 
+# ----------------------------------------------------------------------------- contribution lists and model_contrib()
+# The property quantifies over both forward-model families and every model: the contribution list need not hold the
+# molecular absorption (a model of scattering / haze / collision-induced absorption only), and `model_contrib()` evaluates
+# the contributions of any model ONE AT A TIME.  In k-table mode the emission family then runs `evaluate_emission_ktables`
+# with `molecule_absorption is None` -- a path the streams above never take.  Here the list is enumerated (with and without
+# the molecular absorption, in either order), `model()` and `model_contrib()` are run in both opacity modes on the same
+# numbers, and every spectrum (the model's, and each contribution's own) is
+#   * compared with the Lean model: `KTau.emissionK` when the molecular absorption is in the list evaluated,
+#     `KTau.emissionKNoMol` (Props/C20.lean: k_emission_without_molecules) when it is not;
+#   * judged by the property's predicates: k-table mode = cross-section mode on the same numbers for degenerate tables
+#     (emission: within the licensed clamp band of the cross-section path), blackbody bounds / isothermal identity.
+SUBSETS = [['rayleigh'], ['flatmie'], ['cia'], ['rayleigh', 'flatmie'], ['flatmie', 'cia', 'rayleigh'],
+           ['absorption', 'flatmie'], ['rayleigh', 'absorption', 'cia'], ['absorption', 'rayleigh', 'flatmie', 'cia']]
+PART_NAME = dict(absorption='Absorption', cia='CIA', rayleigh='Rayleigh', flatmie='Mie')
+
+
+def gen_subset_case(rng, k):
+    fam = k % 2
+    degenerate = (k % 8) < 6
+    c = gen_case(rng, fam + (0 if degenerate else 2) + 4 * ((k // 2) % 7), thorough=False)
+    spec = c['spec']
+    contribs = SUBSETS[(k // 2) % len(SUBSETS)]
+    # temperature classes enumerated independently of the list
+    nl = spec['nlayers']
+    tclass = ['random', 'isothermal', 'decreasing', 'inverted'][(k // 2 + k // 16) % 4]
+    if tclass == 'isothermal':
+        spec['T'] = float(rng.uniform(300, 2800))
+    else:
+        a = rng.uniform(300, 2800, size=nl)
+        a = np.sort(a)[::-1] if tclass == 'decreasing' else (np.sort(a) if tclass == 'inverted' else a)
+        spec['T'] = [float(x) for x in a]
+    c['tclass'] = tclass
+    regime = c['regime']
+    if 'cia' in contribs:
+        if c.get('cia') is None:
+            ctg = np.sort(rng.choice(np.arange(100.0, 3500.0, 100.0), size=3, replace=False))
+            ce = {'zero': -80, 'thin': -62, 'mid': -54, 'saturated': -46, 'mixed': -54}[regime]
+            c['cia'] = dict(pair='H2-He' if rng.random() < 0.5 else 'H2-H2', tg=ctg,
+                            tab=10 ** (ce + rng.uniform(-2, 2, size=(3, len(c['wn'])))))
+        spec['cia'] = [c['cia']['pair']]
+    else:
+        c['cia'] = None
+        spec['cia'] = []
+    if 'flatmie' in contribs:
+        # grey haze over the whole column; its opacity is set for a vertical optical depth of the regime:
+        # column ~ pmax / (g mu), g = G M / R^2 (Jupiter units), mu ~ 2.3 amu (H2/He)
+        grav = 6.674e-11 * spec['mp'] * 1.898e27 / (spec['rp'] * 6.9911e7) ** 2
+        column = spec['pmax'] / (grav * 2.3 * 1.6605e-27)
+        tau = {'zero': 0.0, 'thin': 10 ** rng.uniform(-3, -2), 'mid': 10 ** rng.uniform(-1, 0.5),
+               'saturated': 10 ** rng.uniform(1.5, 2.5), 'mixed': 10 ** rng.uniform(-2, 1.5)}[regime]
+        spec['flatmie'] = dict(mix=float(tau / column))
+    spec['contribs'] = list(contribs)
+    spec.pop('cia_first', None)
+    c.update(subset=True)
+    return c
+
+
+def observe_parts(m):
+    """`model_contrib()` of a built model: {contribution name: spectrum}, and per contribution its (kind, sigma) as left by
+    its own `prepare` (None for the k-table absorption, whose sigma is 3-D)"""
+    _, parts = m.model_contrib()
+    sig = E.contribution_inputs_all(m)
+    return {c.name: dict(flux=np.array(parts[c.name][0], float).ravel(), kc=sig[i])
+            for i, c in enumerate(m.contribution_list)}
+
+
+def run_subset(kind, c, tables, mode, scratch):
+    with E.CacheState():
+        E.install_tables(c['wn'], tables, c.get('cia'), mode, scratch, np.asarray(c['weights'], float),
+                         kfmt=c.get('kfmt', 'pickle'))
+        m = E.build_model(kind, dict(c['spec']))
+        out = E.observe_model(m, kind)
+        out['parts'] = observe_parts(m)
+        return out
+
+
+def eval_subset(ctx, c, scratch):
+    fam, spec = c['family'], c['spec']
+    kind = 'transmission' if fam == 'transmission' else 'emission'
+    contribs = list(spec['contribs'])
+    has_abs = 'absorption' in contribs
+    w = np.asarray(c['weights'], float)
+    degenerate = all(np.all(np.asarray(t['kcoeff'], float) == np.asarray(t['kcoeff'], float)[..., :1])
+                     for t in c['tables'].values())
+    small = dict(family=fam, contribs=contribs, tkind=c.get('tkind'), regime=c.get('regime'), ng=len(w),
+                 nlayers=spec['nlayers'], nwn=len(c['wn']), tclass=c.get('tclass'), ngauss=spec['ngauss'])
+    case = dict(c, small=small)
+    try:
+        ok = run_subset(kind, c, c['tables'], 'ktables', scratch)
+    except Exception as e:
+        if _invalid_params(ctx, e):
+            return
+        ctx.violation('subset:raises:ktables:' + fam, 'k-table run raised %r on a valid input' % (e,), case)
+        return
+    try:
+        ox = run_subset(kind, c, xsec_tables(c, 'first' if degenerate else 'avg'), 'xsec', None)
+    except Exception as e:
+        ctx.violation('subset:raises:xsec:' + fam, 'cross-section run raised %r on a valid input' % (e,), case)
+        return
+    nus = ok['grid']
+    listing = '+'.join(contribs)
+    ctx.bucket('subset:' + fam + ':' + ('with' if has_abs else 'WITHOUT') + '-molecular-absorption')
+    ctx.bucket('subset:list:' + listing)
+    ctx.bucket('subset:tables:' + ('degenerate' if degenerate else 'generic'))
+    # every spectrum observed: the model's own, then each contribution on its own (model_contrib)
+    # entry: (label, k-mode flux, xsec-mode flux, is the molecular absorption in it, k-mode non-molecular inputs,
+    #         xsec-mode inputs of everything in it)
+    xall = ([(0, ox['sigma_abs'])] if has_abs else []) + list(ox['nonmol'])
+    spectra = [('model', ok['flux'], ox['flux'], has_abs, list(ok['nonmol']), xall)]
+    for nm in contribs:
+        pk, px = ok['parts'][PART_NAME[nm]], ox['parts'][PART_NAME[nm]]
+        if nm == 'cia' and px['kc'] is None:
+            continue
+        spectra.append(('model_contrib:' + PART_NAME[nm], pk['flux'], px['flux'], nm == 'absorption',
+                        [] if nm == 'absorption' else [pk['kc']], [px['kc']]))
+    nontrivial = False
+    for label, fk, fx, mol, knon, xin in spectra:
+        what = '%s [%s]' % (label, listing)
+        ctx.bucket('subset:spectrum:' + label + (':molecular' if mol else ':non-molecular') + ':' + fam)
+        if fk.shape != fx.shape or not np.all(np.isfinite(fk)):
+            ctx.violation('subset:nonfinite:' + fam + ':' + label, 'k-mode spectrum of %s not finite / of another shape than '
+                          'the cross-section one' % what, case, dict(k=fk, xsec=fx))
+            continue
+        if fam == 'transmission':
+            if degenerate and not C.close(fk, fx, rel=1e-8):
+                ctx.violation('subset:transmission-ktable-vs-xsec:' + label, 'transit depth of %s in k-table mode (degenerate '
+                              'tables) differs from the cross-section run on the same numbers' % what, case,
+                              dict(k=fk, xsec=fx))
+            continue
+        # ---- emission: the Lean model on the observed inputs
+        xs, wts = np.polynomial.legendre.leggauss(spec['ngauss'])
+        scale = float(np.max(E.planck_np(nus, float(np.max(ok['T'])))))
+        fac = (ok['rp'] / ok['rs']) ** 2 / ok['sed']
+        enc = lambda kc: C.N(kc[0]) + ' ' + C.LL(kc[1].tolist())
+        tail = (C.L(ok['dz']), C.L(ok['dens']), C.L(ok['T']), C.L(xs), C.L(wts), C.F(ok['tstar']), C.F(ok['rp']),
+                C.F(ok['rs']))
+        if mol:
+            d = ctx.model().call('c20.emission', *pc_tokens(), C.F(np.pi), C.L(nus), C.L(knon, enc),
+                                 C.LLL(ok['sigma_abs'].tolist()), C.L(w), *tail)
+        else:
+            d = ctx.model().call('c20.emission_nomol', *pc_tokens(), C.F(np.pi), C.L(nus), C.L(knon, enc), *tail)
+        mI, mecl = [], []
+        for _ in range(d.nat()):
+            mI.append(d.list())
+            d.flt()
+            mecl.append(d.flt())
+        if label == 'model':
+            mI = np.array(mI).T.reshape(spec['ngauss'], len(nus))
+            ctx.check_close('k-mode partial_model intensity [%s the molecular absorption] vs KTau.%s'
+                            % ('with' if mol else 'without', 'emissionK' if mol else 'emissionKNoMol'), ok['I'].ravel(),
+                            mI.ravel(), case, rel=1e-8, abs_=1e-12 * scale)
+        ctx.check_close('k-mode eclipse spectrum (%s, %s) vs KTau.%s/fluxOf/eclipse'
+                        % (label.split(':')[0], 'molecular absorption' if mol else 'no molecular absorption',
+                           'emissionK' if mol else 'emissionKNoMol'), fk, mecl, dict(case, spectrum=label), rel=1e-8,
+                        abs_=1e-12 * scale * float(np.max(fac)))
+        # ---- the property's predicates
+        T = ok['T']
+        bfac = (ok['rp'] / ok['rs']) ** 2 / E.planck_np(nus, ok['tstar'])
+        bmin = E.planck_np(nus, float(T.min())) * bfac
+        bmax = E.planck_np(nus, float(T.max())) * bfac
+        if np.any(fk < bmin * (1 - 1e-8) - 1e-12 * bmax) or np.any(fk > bmax * (1 + 1e-8)):
+            ctx.violation('subset:emission-ktable-hot-cold:' + label, 'k-mode eclipse spectrum of %s outside the blackbody '
+                          'ratios of the coldest/hottest layer' % what, case, dict(flux=fk, cold=bmin, hot=bmax))
+        if float(T.max()) == float(T.min()):
+            ratio = fk / (E.planck_np(nus, float(T[0])) * bfac)
+            if np.any(np.abs(ratio - 1) > 1e-8):
+                ctx.violation('subset:emission-ktable-isothermal:' + label, 'isothermal k-mode atmosphere (%s) does not '
+                              'return B(T)/B(T*)(Rp/Rs)^2' % what, case, dict(ratio=ratio))
+        el = E.layer_elements(xin, ox['dz'], ox['dens']) if xin else np.zeros((len(ox['dz']), len(nus)))
+        el = np.broadcast_to(el, (len(ox['dz']), len(nus)))
+        nontrivial = nontrivial or bool(np.any((el.sum(axis=0) > 1e-3) & (el.sum(axis=0) < 30)))
+        if degenerate:
+            ref = E.ref_emission(nus, el, ox['T'], ox['mu_quads'], ox['wi_quads'])
+            band = ref['band_flux'] * (ok['rp'] / ok['rs']) ** 2 / ox['sed']
+            for a, b, bd, fl in zip(fk, fx, band, 1e-12 * bmax):
+                if not (C.close(a, b, rel=1e-8, abs_=fl) or abs(a - b) <= bd * (1 + 1e-6) + 1e-8 * abs(b) + fl):
+                    ctx.violation('subset:emission-ktable-vs-xsec:' + label + (':with' if mol else ':without')
+                                  + '-molecular-absorption', 'eclipse spectrum of %s in k-table mode (degenerate tables) '
+                                  'differs from the cross-section run on the same numbers (beyond the licensed clamp band)'
+                                  % what, case, dict(k=fk, xsec=fx, band=band))
+                    break
+    if fam == 'transmission':
+        surf_like = -np.log(np.maximum(ok['tau'], 1e-300))
+        nontrivial = bool(np.any((surf_like > 1e-3) & (surf_like < 30)))
+    ctx.case(key=('subset', fam, listing, c.get('regime'), spec['nlayers'], degenerate) if nontrivial else None,
+             sample=dict(small, impl=ok['flux'][:3], xsec=ox['flux'][:3]), bucket='family:' + fam)
+
+
 INTERP_SEQS = [[None, 'exp'], ['linear', 'exp', 'linear'], ['exp', 'linear'], ['exp', None], [None, 'exp', None]]
 
 
@@ -617,6 +846,14 @@ def run(ctx):
             c = gen_case(ctx.rng, 2 * k + 1 if k % 2 else 4 * k, thorough=False)
             if not c.get('multigrid'):
                 mode_switch_case(ctx, c, scratch)
+        # (round-6 streams after the older ones, whose random draws they leave as they were)
+        # twin grids: the same bin centres, one copy through a single-precision file (families / kinds / both directions /
+        # end points enumerated)
+        for k in range(ctx.n(32, 640)):
+            eval_case(ctx, gen_case(ctx.rng, k, thorough=False, twin=['later', 'first'][(k // 4) % 2]), scratch)
+        # contribution lists with and without the molecular absorption, model() and model_contrib()
+        for k in range(ctx.n(48, 960)):
+            eval_subset(ctx, gen_subset_case(ctx.rng, k), scratch)
         malformed(ctx, scratch)
     finally:
         shutil.rmtree(scratch, ignore_errors=True)
@@ -633,6 +870,14 @@ def replay(ctx, case):
         scratch = tempfile.mkdtemp(prefix='verif_c20_')
         try:
             interp_session_case(ctx, case, scratch)
+        finally:
+            shutil.rmtree(scratch, ignore_errors=True)
+        return
+    if case.get('subset'):
+        case.pop('spectrum', None)
+        scratch = tempfile.mkdtemp(prefix='verif_c20_')
+        try:
+            eval_subset(ctx, case, scratch)
         finally:
             shutil.rmtree(scratch, ignore_errors=True)
         return
